@@ -308,9 +308,8 @@ func (e *c17ex) Exec(op string) string {
 			// holds must not stop the harness)
 			ch := make(chan *simpeer.Result, 1)
 			go func(inv *c17inv) { ch <- e.sim(inv) }(inv)
-			select {
-			case solo[i] = <-ch:
-			case <-time.After(stepLimit):
+			var ok bool
+			if solo[i], ok = waitTicks(ch, stepLimit); !ok {
 				e.flag("no_reply", "an invocation run alone did not finish within "+stepLimit.String())
 				Hung = true // whatever holds it may hold the next one too: nothing further is run
 				return "hung"
@@ -342,6 +341,7 @@ func (e *c17ex) Exec(op string) string {
 		}
 		doneCh := make(chan int, n)
 		waitFor := func(i int) bool { // until thread i blocks at a hook or finishes
+			ticks := int(stepLimit / time.Second) // counted in ticks of this process (see waitTicks)
 			for {
 				select {
 				case j := <-arrived:
@@ -353,8 +353,10 @@ func (e *c17ex) Exec(op string) string {
 					if j == i {
 						return true
 					}
-				case <-time.After(stepLimit):
-					return false
+				case <-time.After(time.Second):
+					if ticks--; ticks <= 0 {
+						return false
+					}
 				}
 			}
 		}
